@@ -40,6 +40,7 @@ Definition op_okb (s : st) (o : op) : bool :=
   match o with
   | SetRule r _ | AddRxn r | RemoveRxn r _ => memz r (rids s)
   | RemoveGenes _ _ | Repair => true
+  | RenameGenesFixed d => nodupb (keys d)
   | RenameGenes d => nodupb (keys d) && no_chain d        (* keys of a Python dict are distinct *)
   end.
 Definition op_ok (s : st) (o : op) : Prop := op_okb s o = true.
